@@ -37,7 +37,8 @@ def noncanonical(mat):
 
 def reps_single(vec):
     """Every accepted representation of one operator (name, value)."""
-    out = [('list', [int(x) for x in vec])]
+    # a list of Python truth values (mask.tolist(), [q in support for q in ...]) is a list too
+    out = [('list', [int(x) for x in vec]), ('list-bool', [bool(x) for x in vec])]
     for dt in DTYPES:
         out.append((f'nd1-{dt}', np.array(vec, dtype=dt)))
         out.append((f'nd2-{dt}', np.array(vec, dtype=dt).reshape(1, -1)))
@@ -47,7 +48,8 @@ def reps_single(vec):
 
 
 def reps_stack(mat, light=False):
-    out = [('list', [[int(x) for x in row] for row in mat])]
+    out = [('list', [[int(x) for x in row] for row in mat]),
+           ('list-bool', [[bool(x) for x in row] for row in mat])]
     for dt in (DTYPES if not light else ['uint8', 'int8', 'int64']):
         out.append((f'nd2-{dt}', np.array(mat, dtype=dt)))
     out.append(('csr', csr_matrix(np.array(mat, dtype='uint8'))))
